@@ -94,7 +94,7 @@ def gen_cases(tier, seed):
             for mode in NORESULT_MODES + DAMAGE_MODES:
                 cases.append({"id": "%s-%s-%s" % (site, pos, mode), "sig": [site, "-", pos, mode], "site": site, "pos": pos, "mode": mode, "kind": "decrypt", "msg": "-"})
     # a decryption that fails at one invocation and works at a later one: what comes out of the ciphertext still needs its signature checked
-    for site in ("decrypt-then-verify-assertion", "decrypt-then-verify-assertion-second-key-right"):
+    for site in ("decrypt-then-verify-assertion", "decrypt-then-verify-assertion-second-key-right", "decrypt-then-verify-several-encrypted"):
         for msg in ("valid", "tampered"):
             for pos in POSITIONS:
                 for mode in NORESULT_MODES + DAMAGE_MODES:
@@ -356,9 +356,27 @@ def run_case(case, ctx):
         if inner:
             # only the assertion is signed, and it travels encrypted; "tampered" = edited after signing, then encrypted by whoever did it
             plain = fed.issue(good_idp, ident, sign_response=False, sign_assertion=True)
-            if case["msg"] == "tampered":
-                plain = _tamper(plain)
-            xml = xk.encrypt_assertions(plain, fed.key(2)[1])
+            if site == "decrypt-then-verify-several-encrypted":
+                # one plain signed assertion and two encrypted ones: the first genuinely signed by the IdP, the second ("tampered") signed by
+                # an outsider - a decryption that fails for one of them and works at a later attempt must not let the second one in unverified
+                from vlib import xmlmut as xm
+                d0 = xk.Doc(plain)
+                a0 = d0.find(xk.SAML, "Assertion")[0]
+                aid = a0.attrs["ID"]
+                b = xm.evilize(d0.standalone(a0), new_id=aid + "b", keep_sig=False, tweak=False)
+                c = xm.evilize(d0.standalone(a0), new_id=aid + "c", keep_sig=False)
+                txt = d0.insert_after(a0, b + c).text()
+                txt = xk.sign_element(txt, xk.SAML, "Assertion", aid + "b", fed.key(0)[0], "rsa-sha256", fed.cert_body(0))
+                txt = xk.sign_element(txt, xk.SAML, "Assertion", aid + "c", fed.key(0 if case["msg"] == "valid" else 9)[0], "rsa-sha256",
+                                      fed.cert_body(0 if case["msg"] == "valid" else 9))
+                xml = xk.encrypt_assertions(xk.encrypt_assertions(txt, fed.key(2)[1], which=[2]), fed.key(2)[1], which=[1])     # A stays plain
+                dchk = xk.Doc(xml)
+                if len([c_ for c_ in dchk.root.children if c_.tag == (xk.SAML, "Assertion")]) != 1 or len(dchk.find(xk.SAML, "EncryptedAssertion")) != 2:
+                    return {"outcome": "HARNESS-ERROR", "error": "several-encrypted message not built as intended"}
+            else:
+                if case["msg"] == "tampered":
+                    plain = _tamper(plain)
+                xml = xk.encrypt_assertions(plain, fed.key(2)[1])
         else:
             xml = fed.issue(good_idp, ident, sign_response=True, sign_assertion=False, encrypt_assertion=True)
         with Fault(ctx, case):
@@ -371,6 +389,15 @@ def run_case(case, ctx):
             i = fed.identity_of(resp)
             has_identity = bool(i.get("ava")) or bool(i.get("name_id")) or getattr(resp, "assertion", None) is not None
         outcome = ("accept+identity" if has_identity else "accept-no-identity") if resp is not None else "reject:" + (type(exc).__name__ if exc is not None else "None")
+        if site == "decrypt-then-verify-several-encrypted":
+            # the plain assertion may legitimately give an identity; what matters is that the outsider's content never does
+            i_ = fed.identity_of(resp) if resp is not None else {}
+            leaked = "attacker-value" in repr(i_.get("ava")) or any(str(getattr(a_, "id", "")).endswith("c") for a_ in (getattr(resp, "assertions", None) or []))
+            if leaked and case["msg"] == "tampered":
+                viol.append({"key": "C20/tampered-assertion-accepted-after-decryption-fault", "what": desc + ": identity %r, events %r" % (
+                    i_.get("ava"), [monitors.slim(e) for e in evs][:8])})
+            return {"outcome": outcome, "nontrivial": injected > 0, "violations": viol,
+                    "counters": {"faults_injected": injected, "identity_yielded": int(has_identity), "genuine_decrypts": len(genuine_dec)}}
         if has_identity and not genuine_dec:
             viol.append({"key": "C20/identity-without-genuine-decryption", "what": desc + ": identity %r, decrypt events %r" % (
                 fed.identity_of(resp).get("ava"), [monitors.slim(e) for e in evs if e.get("cmd") == "decrypt"])})
